@@ -273,7 +273,7 @@ func (sessScenario) Gen(r *Rng, tier string, opts map[string]string) interface{}
 		if closeBy == 0 || closeBy == 2 || closeBy == 4 {
 			sp.C2S.W = append(sp.C2S.W, wOp{K: "close"})
 		}
-		if !p.Accept && (prop == "C20" || (prop != "C06" && prop != "C19" && r.Chance(1, 4))) {
+		if !p.Accept && (prop == "C20" || (prop == "C10" && r.Chance(1, 2)) || (prop != "C06" && prop != "C19" && r.Chance(1, 4))) {
 			sp.Callback = true
 			nc := 1 + r.Intn(4)
 			for j := 0; j < nc; j++ {
@@ -283,7 +283,12 @@ func (sessScenario) Gen(r *Rng, tier string, opts map[string]string) interface{}
 				case 3, 4:
 					sp.CbOps = append(sp.CbOps, rOp{K: "part", N: anchoredSize(r, p.Cfg)})
 				case 5:
-					sp.CbOps = append(sp.CbOps, rOp{K: "need", N: 1 + r.Intn(1+total/2)})
+					if prop == "C10" && r.Chance(1, 2) {
+						// wait inside the callback for more than will ever arrive: only the peer's close can end the wait early
+						sp.CbOps = append(sp.CbOps, rOp{K: "need", N: total + 1 + r.Intn(50)})
+					} else {
+						sp.CbOps = append(sp.CbOps, rOp{K: "need", N: 1 + r.Intn(1+total/2)})
+					}
 				case 6:
 					sp.CbOps = append(sp.CbOps, rOp{K: "sleep", N: r.Pick(1, 30)})
 				default:
@@ -1732,8 +1737,10 @@ func (c *streamCb) OnData(reader BufferReader) {
 	}
 	op := ss.plan.CbOps[c.k%len(ss.plan.CbOps)]
 	c.k++
+	var lastErr error
 	consume := func(n int) bool {
 		got, err := reader.ReadBytes(n)
+		lastErr = err
 		if err != nil {
 			if err == ErrTimeout || w.isClosedErr(err) {
 				return false
@@ -1770,8 +1777,19 @@ func (c *streamCb) OnData(reader BufferReader) {
 		if n < 1 {
 			n = 1
 		}
-		_ = es.stream.SetReadDeadline(time.Now().Add(2 * time.Second))
+		_ = es.stream.SetReadDeadline(time.Now().Add(6 * time.Second))
 		if !consume(n) {
+			// a read waiting inside OnData is released by the peer's close, not only by its own deadline
+			if lastErr == ErrTimeout && d.closeReturned && simrt.Now()-d.closeReturnAt > 2*time.Second && !es.closeInvoked {
+				rule := "C10.reader_not_woken"
+				if w.own == "C11" {
+					rule = "C11.read_hang"
+				} else if w.own == "C20" {
+					rule = "C20.reader_not_woken"
+				}
+				w.failTagged(rule, w.ctxTags(ss, 0), "stream %d: ReadBytes(%d) inside OnData only returned on its own deadline although the peer's Close had returned %v earlier", ss.idx, n, simrt.Now()-d.closeReturnAt)
+				return
+			}
 			_ = es.stream.SetReadDeadline(time.Time{})
 			if reader.Len() > 0 {
 				consume(reader.Len())
